@@ -278,7 +278,11 @@ def run(F, R):
     R.rule("C01-R5", "the returned signature is the DER signature decoded from the ETag, unchanged")
     if oks:
         with vr.restrict(vr.reach0):
-            ret = [x for x in walk(vr.trace_local(0)) if x[0] == "agg" and x[2] and x[2].endswith("Result::Ok")]
+            # the function's own success value: a top-level alternative of the return value (an inlined helper's `Ok(..)`
+            # that was consumed by `?` sits deeper in the term)
+            ret = [x for x in lib.alts(vr.trace_local(0)) if x[0] == "agg" and x[2] and x[2].endswith("Result::Ok")]
+            if not ret:
+                ret = [x for x in walk(vr.trace_local(0)) if x[0] == "agg" and x[2] and x[2].endswith("Result::Ok")]
         if ret:
             s_ = terms.render(vr, ret[0][3][0], W, names_vr, transparent=NOERR)
             s_c = canon_of(vr, ret[0][3][0])
